@@ -15,6 +15,15 @@ Property theorems only (helper lemmas: `Lemmas/Destripe.lean`, `Analysis/Destrip
                                                                                           destripe_removes_adc_skewed_stripe
   * the ADC delays are sub-sample fractions, shared by the channels of one ADC cycle slot adc_shift_lt_one, adc_same_slot_same_shift
 
+Growth round (mechanisms that were only compared numerically or assumed before):
+  * mirrored padding of kfilt / fk as Python list operations: length, index map, stripping = identity      pad_strip_identity, pad_rows_index_map
+  * padding + taper + un-padding leave the recorded channels untouched (identity filter)                   kfilt_pad_taper_strip_identity, taper_range
+  * agc: gain > 0 on every row that is not identically zero, dead rows = zero rows, epsilon rule, window    agc_gain_positive, agc_dead_iff_zero_row,
+                                                                                                           agc_epsilon_rule, agc_window
+  * scipy's sosfiltfilt (odd extension, sosfilt_zi, both passes) removes constants when a section has      sosfiltfilt_removes_constants,
+    zero DC gain: the law `KillsConst` is proved for the modelled filter                                   kfilt_sos_kills_common_mode
+  * the functional models carry the stage order that the translator tie reads off the source               kfilt_stage_order, destripe_stage_order
+
 Not provable as theorems (kept numeric, checked by the oracle in `harness/props/c05.py` every run):
   -- attenuation_ge_40dB : a stripe s(t + d_c) is attenuated by ≥ 40 dB by destripe / destripe_lfp (both spatial variants, all probes)
   -- spike_retention_ge_90 : a spike on ≤ 3 neighbouring channels keeps ≥ 90 % of its high-passed amplitude
@@ -22,6 +31,8 @@ these depend on the Butterworth responses and on edge effects of the finite wind
 -/
 import IblVerif.Analysis.Destripe
 import IblVerif.Analysis.DestripeAlign
+import IblVerif.Analysis.DestripeGain
+import IblVerif.Analysis.DestripeSos
 import IblVerif.Generated.Constants
 
 namespace IblVerif.C05
@@ -321,6 +332,126 @@ theorem adc_same_slot_same_shift (a n c : Nat) (h0 : 0 < a) (hc : c % 2 = 0) :
   · simp only [adcIndex, hdiv1]; omega
   · simp only [adcIndex, hdiv]; omega
 
+/-! ### growth round: mirrored padding -/
+
+/-- **Stripping the padding returns exactly the original rows** — `xf[ntr_pad:-ntr_pad]` of
+`np.r_[np.flipud(xf[:ntr_pad]), xf, np.flipud(xf[-ntr_pad:])]` with their guards `if ntr_pad > 0`, Python slice
+semantics, for every list of rows and every `ntr_pad ≤ nc` (`ntr_pad = 0` included). -/
+theorem pad_strip_identity {β : Type} (pad : Nat) (rows : List β) (h : pad ≤ rows.length) :
+    stripRowsIf pad (padRowsIf pad rows) = rows :=
+  strip_padRowsIf pad rows h
+
+/-- **The padded array**: `nx + 2·ntr_pad` rows; row `p` is row `mirrorIdx nx pad p` of the data (the index map the
+functional model `kfiltCore` uses), always a valid row; the recorded channels sit at `pad … pad + nx - 1`; the padding
+mirrors about the array edges, `k` rows out = row `k` resp. `nx - 1 - k`. -/
+theorem pad_rows_index_map (nx pad : Nat) (h : pad ≤ nx) :
+    (padIdx nx pad).length = nx + pad * 2 ∧
+    (∀ p, p < nx + pad * 2 → (padIdx nx pad)[p]? = some (mirrorIdx nx pad p) ∧ mirrorIdx nx pad p < nx) ∧
+    (∀ c, c < nx → mirrorIdx nx pad (c + pad) = c) ∧
+    (∀ k, k < pad → mirrorIdx nx pad (pad - 1 - k) = k ∧ mirrorIdx nx pad (pad + nx + k) = nx - 1 - k) := by
+  refine ⟨padIdx_length nx pad h, ?_, fun c hc => mirrorIdx_inner nx pad c hc, fun k hk => mirrorIdx_edges nx pad k hk⟩
+  intro p hp
+  refine ⟨padIdx_getElem? nx pad h p hp, ?_⟩
+  unfold mirrorIdx; split
+  · omega
+  · split <;> omega
+
+/-- The guard `if ntr_pad > 0` is needed: `xf[-0:]` is the whole array, the unguarded statement would append a mirrored copy. -/
+theorem pad_guard_needed {β : Type} (rows : List β) : padRows 0 rows = rows ++ rows.reverse := padRows_zero rows
+
+/-- the cosine taper of `kfilt` / `fk` takes values in [0, 1] and is exactly 1 on rows `ntr_tap … nxp - ntr_tap` -/
+theorem taper_range (nxp tap p : Nat) :
+    0 ≤ taper realEnv nxp tap p ∧ taper realEnv nxp tap p ≤ 1 ∧
+    (0 < tap → tap ≤ p → p + tap ≤ nxp → taper realEnv nxp tap p = 1) :=
+  ⟨(taper_bounds nxp tap p).1, (taper_bounds nxp tap p).2, taper_inside_one nxp tap p⟩
+
+/-- **Padding, taper and un-padding leave the recorded channels untouched**: with the identity in place of the spatial
+filter and gain control off, `kfilt` returns its input, for every `ntr_pad ≤ nc` and every taper not longer than the
+padding (`ntr_tap = None`, i.e. `ntr_pad`, or 0, or anything in between). -/
+theorem kfilt_pad_taper_strip_identity (s : KSet ℝ) (hL : ∀ n v, s.L n v = v) (hlagc : lagcOn s.lagc = none)
+    (htap : tapOf s ≤ s.ntrPad) (nx ns : Nat) (x y : Mat ℝ) (h : kfilt realEnv s nx ns none x = .ok y)
+    (c : Nat) (hc : c < nx) (t : Nat) : y.get c t = x.get c t := by
+  simp only [kfilt, kfilt1] at h
+  split at h
+  · simp at h
+  · split at h
+    · simp at h
+    · rw [hlagc] at h
+      simp only [Except.ok.injEq] at h
+      subst h
+      exact kfiltCore_identity s hL htap nx ns x c hc t
+
+/-! ### growth round: gain control -/
+
+/-- **The gain of `agc` is strictly positive at every sample of every row that is not identically zero** (`epsilon > 0`),
+and such a row is not treated as dead (so `data = x / gain` there). -/
+theorem agc_gain_positive (nc ns lagc : Nat) (eps : ℝ) (heps : 0 < eps) (x : Mat ℝ) (c : Nat)
+    (hlive : ∃ t, t < ns ∧ x.get c t ≠ 0) :
+    (∀ t, 0 < (agc realEnv nc ns lagc eps x).gain.get c t) ∧ (agc realEnv nc ns lagc eps x).dead.get c = false := by
+  obtain ⟨h1, h2, h3⟩ := agc_window_ok lagc
+  unfold agc
+  refine ⟨fun t => agcW_gain_pos ns _ _ eps x h1 h2 h3 heps nc c hlive t, ?_⟩
+  cases hd : (agcW realEnv nc ns (agcWin lagc) (hanning realEnv (agcWin lagc)) eps x).dead.get c with
+  | false => rfl
+  | true =>
+    obtain ⟨t, ht, hx⟩ := hlive
+    exact absurd ((agcW_dead_iff ns _ _ eps x h1 h2 h3 heps nc c).mp hd t ht) hx
+
+/-- **The rows `agc` leaves alone (`dead_channels`) are exactly the all-zero rows**; their gain is 0. -/
+theorem agc_dead_iff_zero_row (nc ns lagc : Nat) (eps : ℝ) (heps : 0 < eps) (x : Mat ℝ) (c : Nat) :
+    ((agc realEnv nc ns lagc eps x).dead.get c = true ↔ ∀ t, t < ns → x.get c t = 0) ∧
+    ((∀ t, t < ns → x.get c t = 0) → ∀ t, (agc realEnv nc ns lagc eps x).gain.get c t = 0) := by
+  obtain ⟨h1, h2, h3⟩ := agc_window_ok lagc
+  unfold agc
+  exact ⟨agcW_dead_iff ns _ _ eps x h1 h2 h3 heps nc c, fun hz t => agcW_zero_row ns _ _ eps x h1 h2 h3 nc c hz t⟩
+
+/-- **The epsilon rule**: `gain[c, t] ≥ epsilon · mean_t(envelope[c, ·])` — the whitening term is a floor under the gain. -/
+theorem agc_epsilon_rule (nc ns lagc : Nat) (eps : ℝ) (x : Mat ℝ) (c t : Nat) :
+    sumTo ns (env0 ns (agcWin lagc) (hanning realEnv (agcWin lagc)) x c) * eps / (ns : ℝ)
+      ≤ (agc realEnv nc ns lagc eps x).gain.get c t := by
+  obtain ⟨h1, h2, h3⟩ := agc_window_ok lagc
+  unfold agc
+  exact agcW_gain_ge ns _ _ eps x h1 h2 h3 nc c t
+
+/-- the window of `agc(x, wl=lagc, si=1.0)`: the general formula at `wl / si = lagc`, odd, between `lagc` and `lagc + 2` -/
+theorem agc_window (lagc : Nat) :
+    agcWin lagc = agcWinQ lagc 1 1 1 ∧ agcWin lagc % 2 = 1 ∧ lagc ≤ agcWin lagc ∧ agcWin lagc ≤ lagc + 2 := by
+  refine ⟨agcWin_eq_Q lagc, ?_, ?_, ?_⟩ <;> (unfold agcWin roundHalf; split <;> (try split) <;> omega)
+
+/-! ### growth round: the spatial high-pass removes constants -/
+
+/-- **`scipy.signal.sosfiltfilt` (as modelled: odd extension, `sosfilt_zi`, forward and backward pass, un-padding)
+maps a constant signal to 0** whenever one section has a numerator summing to 0 and no section has `a.sum() = 0`. -/
+theorem sosfiltfilt_removes_constants (secs : List (Sec ℝ)) (hreg : ∀ s ∈ secs, s.regular) (hz : ∃ s ∈ secs, s.zeroDC)
+    (edge : Nat) (x : List ℝ) (a : ℝ) (hx : ∀ v ∈ x, v = a) : ∀ v ∈ sosfiltfilt realEnv secs edge x, v = 0 :=
+  sosfiltfilt_kills_const secs hreg hz edge x a hx
+
+/-- **The k-filter removes a common mode, with the spatial filter modelled** (no assumed law left but the section
+coefficients): `kfilt_kills_common_mode` with `L = sosfiltfilt` of sections of which one has zero DC gain. -/
+theorem kfilt_sos_kills_common_mode (secs : List (Sec ℝ)) (hreg : ∀ s ∈ secs, s.regular) (hz : ∃ s ∈ secs, s.zeroDC)
+    (s : KSet ℝ) (hs : s.L = sosL realEnv secs s.padlen) (htap : tapOf s = 0) (nx ns : Nat)
+    (x y : Mat ℝ) (h : kfilt realEnv s nx ns none x = .ok y) (r : Nat → ℝ)
+    (hx : ∀ c, c < nx → ∀ t, t < ns → x.get c t = r t) (c : Nat) (hc : c < nx) (t : Nat) (ht : t < ns) :
+    y.get c t = 0 :=
+  kfilt_kills_common_mode s (by rw [hs]; exact sosL_killsConst secs hreg hz s.padlen) htap nx ns x y h r hx c hc t ht
+
+/-! ### growth round: the stage order carried by the functional models -/
+
+/-- `kfilt` (no collection) performs the stages `kfiltStages`: copy or `agc(si = 1)`, taper iff `ntr_tap > 0`, filter along
+the channels — the list the translator tie proves equal to the source's own sequence of calls. -/
+theorem kfilt_stage_order (s : KSet ℝ) (nx ns : Nat) (x : Mat ℝ) (h : s.ntrPad ≤ nx) :
+    (kfilt1T realEnv s nx ns x).1 = kfilt realEnv s nx ns none x ∧
+    (kfilt1T realEnv s nx ns x).2 = kfiltStages (lagcOn s.lagc).isSome nx s.ntrPad (tapArg s.ntrPad s.ntrTap) := by
+  refine ⟨kfilt1T_fst realEnv s nx ns x, ?_⟩
+  rw [kfilt1T_snd realEnv s nx ns x h, tapOf_eq_tapArg]
+
+/-- `destripe` performs the stages `destripeStages`: temporal filter, `fshift(+sample_shift)` iff a probe version is
+given, then interpolation + spatial stage on the inside rows (labels) or the spatial stage on everything (no labels). -/
+theorem destripe_stage_order (d : DSet ℝ) (nc ns : Nat) (ss : Nat → ℝ) (labels : Option (Nat → Nat)) (x : Mat ℝ) :
+    (destripeT d nc ns ss labels x).1 = destripe d nc ns ss labels x ∧
+    (destripeT d nc ns ss labels x).2 = destripeStages d.shift.isSome labels.isSome :=
+  ⟨destripeT_fst d nc ns ss labels x, destripeT_snd d nc ns ss labels x⟩
+
 /-! ### non-vacuity -/
 
 /-- a spatial operator that removes constants but is not zero: difference to the first channel -/
@@ -357,5 +488,33 @@ example (ns : Nat) (w : Wave) (ss : Nat → ℝ) (c j : Nat) :
 example : agcWin 3000 = 3001 ∧ agcWin 3 = 5 ∧ agcWin 5 = 5 ∧ agcWin 1 = 1 := by decide
 
 example : defaultKKwargs 30000 = (60, 0, some 3000) ∧ defaultKKwargs 2500 = (60, 0, none) := by decide
+
+/-- padding 2 rows of a 3-row array: rows 1,0 | 0,1,2 | 2,1 -/
+example : padIdx 3 2 = [1, 0, 0, 1, 2, 2, 1] ∧ stripRowsIf 2 (padIdx 3 2) = [0, 1, 2] ∧ padIdx 3 0 = [0, 1, 2] := by decide
+
+/-- an identity spatial filter, no gain control, default taper (= padding): the hypotheses of `kfilt_pad_taper_strip_identity` -/
+example : (∀ n v, ({ ntrPad := 2, ntrTap := none, lagc := none, L := fun _ v => v, padlen := 0 } : KSet ℝ).L n v = v) ∧
+    lagcOn ({ ntrPad := 2, ntrTap := none, lagc := none, L := fun _ v => v, padlen := 0 } : KSet ℝ).lagc = none ∧
+    tapOf ({ ntrPad := 2, ntrTap := none, lagc := none, L := fun _ v => v, padlen := 0 } : KSet ℝ) ≤ 2 :=
+  ⟨fun _ _ => rfl, rfl, by simp [tapOf]⟩
+
+/-- … and `kfilt` succeeds on such settings (3 channels, 2 mirrored on each side) -/
+example (x : Mat ℝ) : ∃ y, kfilt realEnv ({ ntrPad := 2, ntrTap := none, lagc := none, L := fun _ v => v, padlen := 0 } : KSet ℝ) 3 1 none x = .ok y := by
+  simp [kfilt, kfilt1, lagcOn]
+
+/-- a live row: the hypothesis of `agc_gain_positive` -/
+example : ∃ t, t < 4 ∧ (Mat.ofFn (fun _ t => if t = 2 then (1 : ℝ) else 0)).get 0 t ≠ 0 := ⟨2, by omega, by simp⟩
+
+/-- the sections of `butter(3, ·, 'highpass')` have the shape `g·(1, -1, 0)` and `(1, -2, 1)`: both have zero DC gain;
+with poles inside the unit circle they are regular -/
+example : (⟨1 / 2, -(1 / 2), 0, -(9 / 10), 0⟩ : Sec ℝ).zeroDC ∧ (⟨1, -2, 1, -(19 / 10), 19 / 20⟩ : Sec ℝ).zeroDC ∧
+    (⟨1 / 2, -(1 / 2), 0, -(9 / 10), 0⟩ : Sec ℝ).regular ∧ (⟨1, -2, 1, -(19 / 10), 19 / 20⟩ : Sec ℝ).regular := by
+  refine ⟨?_, ?_, ?_, ?_⟩ <;> simp only [Sec.zeroDC, Sec.regular] <;> norm_num
+
+example : agcWinQ 1 2 2 1000 = 251 ∧ agcWinQ 3000 1 1 1 = 3001 ∧ agcWinQ 5 1 2 1 = 3 ∧ agcWinQ 1 1 1 1 = 1 ∧ agcWinQ 3 1 1 1 = 5 ∧ agcWinQ 7 1 2 1 = 5 := by decide
+
+example : destripeStages true true = [("temporal", []), ("fshift", [1, 1]), ("interpolate", []), ("spatial", [1])] ∧
+    kfiltStages true 384 60 0 = [("agc", [1]), ("sosfiltfilt", [0])] ∧
+    kfiltStages false 10 2 2 = [("copy", []), ("taper_up", [0, 2, 14]), ("sosfiltfilt", [0])] := by decide
 
 end IblVerif.C05
